@@ -367,6 +367,9 @@ def generate(repo):
         # ---- write_value
         wv = find_func(tree, 'write_value', 'MmapedDict')
         we = []
+        for n in ast.walk(wv):
+            if isinstance(n, (ast.Return, ast.Raise, ast.Break, ast.Continue)) and not (isinstance(n, ast.Return) and n is wv.body[-1]):
+                raise Fail('write_value can leave before its file effect: %s' % ast.unparse(n)[:60])
         for st in wv.body:
             if isinstance(st, ast.If):
                 if ast.unparse(st.test) != 'key not in self._positions' and stmt_effects(st, 'wv'):
